@@ -115,7 +115,8 @@ def run(tier: str, seed: int) -> int:
                         if {k: kindf} not in plans:
                             plans.append({k: kindf})
         for k in ls_calls:
-            plans.append({k: "stale"})
+            for variant in ("stale:first", "stale:last", "stale:ghost") if quick else ("stale:first", "stale:last", "stale:mid", "stale:all", "stale:tail2", "stale:ghost"):
+                plans.append({k: variant})
         for _ in range(15 if quick else 150):                           # pairs
             a, b = sorted(rng.sample(range(1, K + 1), 2))
             plans.append({a: rng.choice(["OSError", "FileNotFoundError"]), b: rng.choice(["OSError", "FileNotFoundError"])})
